@@ -1,9 +1,148 @@
-/- Line-protocol driver stub: answers every request line with "unimplemented". -/
-partial def loop (h : IO.FS.Stream) (out : IO.FS.Stream) : IO Unit := do
+/-
+  Line-protocol driver of the board-level models (board, movegen, mate tests, FEN, rules spec).
+  One request line in, exactly one answer line out.  Core-only.
+-/
+import ChessVerif.Model.Board
+import ChessVerif.Model.MoveGen
+import ChessVerif.Model.Mate
+import ChessVerif.Model.Fen
+import ChessVerif.Model.Abs
+import ChessVerif.Spec.Rules
+
+open ChessVerif
+
+structure DS where
+  keysArr : Array BB := #[]
+  board : Board := Board.empty
+  tokens : List Board.Reverse := []
+  /-- rule-book positions of the game so far (head = current) with their legal en-passant captures,
+      reset on `fen`, pushed on `mk`, popped on `um` (used by the repetition spec). -/
+  hist : List (Rules.Pos × List Rules.Mv) := []
+
+def hexVal (c : Char) : Nat :=
+  if '0' ≤ c ∧ c ≤ '9' then c.toNat - 48
+  else if 'a' ≤ c ∧ c ≤ 'f' then c.toNat - 87
+  else if 'A' ≤ c ∧ c ≤ 'F' then c.toNat - 55 else 0
+
+def parseHex (s : String) : Nat := s.foldl (fun acc c => acc * 16 + hexVal c) 0
+
+def mkKeys (a : Array BB) : Keys :=
+  { piece := fun c p s => a.getD (c * 448 + p * 64 + s) 0,
+    stm := a.getD 896 0,
+    castling := fun i => a.getD (897 + i) 0,
+    epFile := fun i => a.getD (901 + i) 0 }
+
+def hx (b : BB) : String := (Nat.toDigits 16 b.toNat).asString
+
+def dump (b : Board) : String :=
+  let sq := String.join ((List.range 64).map fun s => toString (b.pieceAt s).toNat)
+  let ps := String.intercalate "," ((List.range 7).map fun i => hx (b.pieces.getD i 0))
+  let cs := String.intercalate "," ((List.range 2).map fun i => hx (b.colors.getD i 0))
+  let hs := String.intercalate "," (b.hashes.reverse.map hx)
+  s!"{sq} {ps} {cs} {b.stm.toNat} {b.ep} {b.castles.toNat} {b.fifty} {b.fullMoves} [{hs}]"
+
+def tokenStr (r : Board.Reverse) : String :=
+  s!"{Board.Reverse.fiftyCnt r} {(Board.Reverse.castlingChange r).toNat} {Board.Reverse.enPassantChange r} {(Board.Reverse.capture r).toNat}"
+
+def movesStr (ms : List Move) : String := String.intercalate "," (ms.map toString)
+
+def sortNat (l : List Nat) : List Nat := (l.toArray.qsort (· < ·)).toList
+
+/-- the acceptance bitmap of `isPseudoLegal` over all 32768 encodings, as 8192 hex digits
+    (digit k covers encodings 4k..4k+3, bit j of the digit = encoding 4k+j). -/
+def iplBitmap (b : Board) : String :=
+  let own := b.colorBB b.stm
+  String.ofList ((List.range 8192).map fun k =>
+    let base := 4 * k
+    -- cheap pre-filter that does not change the answer: `from` must carry an own piece
+    if !(own.getLsbD ((base / 64) % 64)) then '0' else
+    let v := (List.range 4).foldl (fun acc j => if b.isPseudoLegal (base + j) then acc + 2 ^ j else acc) 0
+    (Nat.toDigits 16 v).headD '0')
+
+def specMoves (b : Board) : List Nat := sortNat ((Rules.legalMoves b.abs).map encodeMove)
+
+def posStr (p : Rules.Pos) : String :=
+  let men := String.ofList ((List.range 64).map fun s =>
+    match p.at_ s with
+    | some (c, k) => Fen.pieceChar c k
+    | none => '.')
+  let r := p.rights
+  let rs := (if r.wk then "K" else "") ++ (if r.wq then "Q" else "") ++ (if r.bk then "k" else "") ++ (if r.bq then "q" else "")
+  let ep := match p.ep with | some t => toString t | none => "-"
+  s!"{men} {p.turn.toNat} [{rs}] {ep} {p.halfmove} {p.fullmove}"
+
+def bstr (x : Bool) : String := if x then "1" else "0"
+
+def histEntry (b : Board) : Rules.Pos × List Rules.Mv := (b.abs, Rules.legalEpCaptures b.abs)
+
+/-- art. 9.2.2 count of the current position in the game history, capped at 3. -/
+def specRepetitions (h : List (Rules.Pos × List Rules.Mv)) : Nat :=
+  match h with
+  | [] => 0
+  | (p, caps) :: _ =>
+    min 3 (h.filter fun (q, qc) => q.men == p.men && q.turn == p.turn && q.rights == p.rights && qc == caps).length
+
+def hexBytes (s : String) : Array UInt8 :=
+  let cs := s.toList.toArray
+  (Array.range (cs.size / 2)).map fun i => UInt8.ofNat (hexVal cs[2*i]! * 16 + hexVal cs[2*i+1]!)
+
+def loadFen (st : DS) (K : Keys) (bytes : Array UInt8) : DS × String :=
+  match Fen.fromFEN K bytes with
+  | .ok nb => ({ st with board := nb, tokens := [], hist := [histEntry nb] }, "ok " ++ dump nb)
+  | .err => (st, "err")
+  | .panic => (st, "panic")
+
+def step (st : DS) (line : String) : DS × String :=
+  let K := mkKeys st.keysArr
+  let b := st.board
+  match line.splitOn " " with
+  | "keys" :: rest => ({ st with keysArr := (rest.map fun s => BitVec.ofNat 64 (parseHex s)).toArray }, "ok")
+  | "fen" :: rest => loadFen st K (String.intercalate " " rest).toUTF8.data
+  | ["fenhex", h] => loadFen st K (hexBytes h)
+  | ["fenhex"] => loadFen st K #[]
+  | ["rep"] => (st, toString (specRepetitions st.hist))
+  | ["dump"] => (st, dump b)
+  | ["mk", m] =>
+    let (nb, r) := b.makeMove K m.toNat!
+    ({ st with board := nb, tokens := r :: st.tokens, hist := histEntry nb :: st.hist }, dump nb ++ " | " ++ tokenStr r)
+  | ["mkq", m] =>   -- make without maintaining the rule-book history (fast path for walks)
+    let (nb, r) := b.makeMove K m.toNat!
+    ({ st with board := nb, tokens := r :: st.tokens, hist := [] }, dump nb ++ " | " ++ tokenStr r)
+  | ["um", m] =>
+    match st.tokens with
+    | r :: rest => let nb := b.undoMove m.toNat! r; ({ st with board := nb, tokens := rest, hist := st.hist.drop 1 }, dump nb)
+    | [] => (st, "bad-op")
+  | ["nm"] =>
+    let (nb, r) := b.makeNull K
+    ({ st with board := nb, tokens := r :: st.tokens }, dump nb ++ " | " ++ tokenStr r)
+  | ["unm"] =>
+    match st.tokens with
+    | r :: rest => let nb := b.undoNull r; ({ st with board := nb, tokens := rest }, dump nb)
+    | [] => (st, "bad-op")
+  | ["gen"] => (st, movesStr (MoveGen.genNoisy b) ++ "|" ++ movesStr (MoveGen.genNotNoisy b))
+  | ["ipl"] => (st, iplBitmap b)
+  | ["ipl1", m] => (st, bstr (b.isPseudoLegal m.toNat!))
+  | ["legal"] => (st, movesStr (sortNat (MoveGen.playable K b)))
+  | ["spec"] => (st, movesStr (specMoves b))
+  | ["valid"] => (st, bstr b.valid ++ bstr (Rules.epNormal b.abs))
+  | ["wf"] => (st, bstr b.wf)
+  | ["state"] => (st, s!"{bstr (b.inCheck b.stm)}{bstr b.isCheckmate}{bstr b.isStalemate}{bstr (Rules.inCheck b.abs b.stm)}{bstr (Rules.isCheckmate b.abs)}{bstr (Rules.isStalemate b.abs)}")
+  | ["three"] => (st, toString b.threefold)
+  | ["fenout"] => (st, Fen.printFEN b)
+  | ["calc"] => (st, hx (b.calcHash K))
+  | ["ipc"] => (st, bstr b.invalidPieceCount)
+  | ["abs"] => (st, posStr b.abs)
+  | ["specapply", m] => (st, posStr (Rules.apply b.abs (decodeMove m.toNat!)))
+  | ["speclegal", m] => (st, bstr (Rules.legal b.abs (decodeMove m.toNat!)))
+  | ["perft", d] => (st, toString (MoveGen.perft K b d.toNat!))
+  | _ => (st, "bad-op")
+
+partial def loop (h out : IO.FS.Stream) (st : DS) : IO Unit := do
   let line ← h.getLine
   if line.isEmpty then return ()
-  out.putStrLn "unimplemented"
+  let (st', ans) := step st (line.dropRightWhile (fun c => c == '\n' || c == '\r'))
+  out.putStrLn ans
   out.flush
-  loop h out
+  loop h out st'
 
-def main : IO Unit := do loop (← IO.getStdin) (← IO.getStdout)
+def main : IO Unit := do loop (← IO.getStdin) (← IO.getStdout) {}
